@@ -75,7 +75,14 @@ impl Prop for P {
             }
             kvs.push((o.key().to_vec(), o.val()));
         }
-        let info = crate::c12::node_info(&fst::raw::Fst::new(bytes.clone()).unwrap());
-        format!("S:v=3;ty={};c={};len={};nodes={};ck=ok\tM:bytes={}\tX:ok", ty, fmt_kvs(&kvs), kvs.len(), info.emitted, hex(&bytes))
+        let f = fst::raw::Fst::new(bytes.clone()).unwrap();
+        let info = crate::c12::node_info(&f);
+        // the crate's own Node accessors on these bytes: a manual walk from root() must enumerate the content
+        // that the format specification reads from them (S), find_input must agree with transitions()
+        let x = match crate::wrap::node_walk(&f, &kvs, 2000) {
+            Ok(()) => "ok".to_string(),
+            Err(e) => e,
+        };
+        format!("S:v=3;ty={};c={};len={};nodes={};ck=ok\tM:bytes={}\tX:{}", ty, fmt_kvs(&kvs), kvs.len(), info.emitted, hex(&bytes), x)
     }
 }
